@@ -4,13 +4,14 @@ package main
 // here is what goes into the evidence).
 
 type harnessSpec struct {
-	Name           string
-	Bounds         string
-	BoundsThorough string
-	ThoroughOnly   bool
-	MaxPaths       int
-	PreemptBound   int
-	NoMerge        bool
+	HistoryDependent bool // counterexamples depend on pool hand-over / Go map order: a native non-reproduction does not veto
+	Name             string
+	Bounds           string
+	BoundsThorough   string
+	ThoroughOnly     bool
+	MaxPaths         int
+	PreemptBound     int
+	NoMerge          bool
 }
 
 type propSpec struct {
@@ -71,6 +72,7 @@ var props = []propSpec{
 		Harnesses: []harnessSpec{
 			{Name: "HarnessC06Degenerate", Bounds: "22 degenerate schema shapes (empty lists, negative/huge bounds, multipleOf<=0, invalid patterns, unknown types/formats, format next to every type, additionalItems without tuple items, nil-valued SchemaOrBool, duplicate required) x 14 instance shapes (all JSON kinds, json.Number valid/decimal/garbage/overflow, int64, duplicates) x SwaggerSchema, SkipSchemata, recycling options"},
 			{Name: "HarnessC06Nested", Bounds: "the same degenerate shapes one level down (properties, items, allOf, not, additionalProperties) x nested instances"},
+			{Name: "HarnessC06KeywordNames", Bounds: "member names and root paths that coincide with schema keywords (default, properties, example(s), items, type, $ref, empty) x object/array/untyped sub-schema x 4 instance shapes x SwaggerSchema / recycling options"},
 			{Name: "HarnessC01Array", Bounds: "as in C01 (index arithmetic for tuple / additional items)"},
 			{Name: "HarnessC01Composition", Bounds: "as in C01 (reflection on possibly nil data)", ThoroughOnly: true},
 		},
